@@ -1,5 +1,5 @@
 SPECIFICATION BSpec
-CONSTANTS MaxChrom = 3  MaxUnits = 1  Kinds = {"snp", "inv"}  EndKinds = {"tip"}  Defects = {"branch", "cycle3"}  MaxDefects = 2  MinUnits = 0  Pattern <- NoPattern
+CONSTANTS MaxChrom = 3  MaxUnits = 1  Kinds = {"snp", "inv"}  EndKinds = {"tip"}  Defects = {"branch", "cycle3"}  MaxDefects = 2  MinUnits = 0  Pattern <- NoPattern  Wholes = {"single", "ring"}
 INVARIANT RunSatisfiesC06
 INVARIANT SkipIsolatedC18
 CHECK_DEADLOCK FALSE
